@@ -74,6 +74,12 @@ func check(c Case, st *stats) (fs []fail) {
 		if len(rf.acceptable) == 2 {
 			st.outcomes["may:file-pair-and-loaded-pair-both-usable-one-presented"]++
 		}
+		if !rf.certSupplied && (c.KeyFile != "" || c.LoadedKey != "") {
+			st.outcomes["may:key-without-certificate-ignored-no-error"]++
+		}
+		if c.CAFile == "garbage" && c.LoadedCA == "" {
+			st.outcomes["may:ca-file-without-certificates-gives-empty-pool-no-error"]++
+		}
 		if c.Insecure && c.ServerName == "" && !o.cfg.InsecureSkipVerify {
 			st.outcomes["may:requested-skip-not-applied"]++
 		}
